@@ -13,7 +13,7 @@ Local Open Scope list_scope.
 Theorem C08_param_names :
   forall (T G F : Type) (app : F -> G -> T) (spec : list (string * pspec T F)) (g : G),
        map fst (get_param_values app spec g) = map fst spec.
-Proof. exact gpv_names. Qed.
+Proof. exact (@gpv_names). Qed.
 
 (* ... each dependent parameter at its dependence function's value at g, each fixed parameter at its fixed value *)
 Theorem C08_param_values :
@@ -25,21 +25,21 @@ Theorem C08_param_values :
                    | Fixed _ v => v
                    | Dep _ f => app f g
                    end).
-Proof. exact gpv_value. Qed.
+Proof. exact (@gpv_value). Qed.
 
 (* pdf/cdf/icdf/draw_sample hand exactly theta(g) to the template method (with C05's override law: exactly an instance constructed with theta(g)) *)
 Theorem C08_forwarders :
   forall (T G F : Type) (app : F -> G -> T) (X Y : Type) (m : X -> list (string * T) -> Y)
          (spec : list (string * pspec T F)) (x : X) (g : G),
        forward app m spec x g = m x (get_param_values app spec g).
-Proof. exact forward_spec. Qed.
+Proof. exact (@forward_spec). Qed.
 
 (* constructor bookkeeping: every template parameter, in order *)
 Theorem C08_init_names :
   forall (T F : Type) (template : list (string * option T)) (parameters : list (string * F))
          (spec : list (string * pspec T F)),
        cond_init template parameters = Ok spec -> map fst spec = map fst template.
-Proof. exact cond_init_names. Qed.
+Proof. exact (@cond_init_names). Qed.
 
 (* ... is fixed (template's f_ value) xor dependent (the supplied function) *)
 Theorem C08_init_entries :
@@ -52,7 +52,7 @@ Theorem C08_init_entries :
        | Fixed _ v => In (n, Some v) template /\ lookup n parameters = None
        | Dep _ f => In (n, None) template /\ lookup n parameters = Some f
        end.
-Proof. exact cond_init_entries. Qed.
+Proof. exact (@cond_init_entries). Qed.
 
 (* vectorised = pointwise: element i of the parameter vectors is theta(g_i) (dependence functions act elementwise) *)
 Theorem C08_vectorised_pointwise :
@@ -71,32 +71,32 @@ Theorem C08_vectorised_pointwise :
                       | Fixed _ v => inl v
                       | Dep _ f => inr (app_vec T G F app f gs)
                       end)) spec) = get_param_values app spec (nth i gs dg).
-Proof. exact vectorised_pointwise. Qed.
+Proof. exact (@vectorised_pointwise). Qed.
 
 (* DependenceFunction(x) uses the current parameters in signature order *)
 Theorem C08_depcall_default :
   forall (T X : Type) (func : X -> list T -> T) (params : list (string * T)) (x : X),
        dep_call func params x [] = Ok (func x (map snd params)).
-Proof. exact dep_call_default. Qed.
+Proof. exact (@dep_call_default). Qed.
 
 (* ... and equals the call with those parameters given explicitly *)
 Theorem C08_depcall_default_is_explicit :
   forall (T X : Type) (func : X -> list T -> T) (params : list (string * T)) (x : X),
        params <> [] -> dep_call func params x [] = dep_call func params x (map snd params).
-Proof. exact dep_call_default_is_explicit. Qed.
+Proof. exact (@dep_call_default_is_explicit). Qed.
 
 (* wrong number of explicit parameters raises *)
 Theorem C08_depcall_arity :
   forall (T X : Type) (func : X -> list T -> T) (params : list (string * T)) (x : X) (args : list T),
        args <> [] ->
        Datatypes.length args <> Datatypes.length params -> dep_call func params x args = Err "ValueError".
-Proof. exact dep_call_arity. Qed.
+Proof. exact (@dep_call_arity). Qed.
 
 (* parameters of a function with bound dependence functions: signature order, bound keys removed *)
 Theorem C08_free_params :
   forall (T : Type) (sig : list (string * T)) (bound : list string) (kv : string * T),
        In kv (free_params sig bound) <-> In kv sig /\ ~ In (fst kv) bound.
-Proof. exact free_params_spec. Qed.
+Proof. exact (@free_params_spec). Qed.
 
 (* composition with the generated override law, Weibull template (the other families: C05_*_override) *)
 Theorem C08_W_template_with_theta :
@@ -106,7 +106,7 @@ Theorem C08_W_template_with_theta :
        WeibullDistribution_pdf s a b g = WeibullDistribution_pdf (W_with s a b g) None None None /\
        WeibullDistribution_draw_sample s a b g =
        WeibullDistribution_draw_sample (W_with s a b g) None None None.
-Proof. exact W_override. Qed.
+Proof. exact (@W_override). Qed.
 
 Example C08_nonvacuous :
   get_param_values (fun (f : R -> R) g => f g) [("alpha", Dep R (fun g => 2 * g)); ("beta", Fixed (R -> R) 3)] 5 = [("alpha", 2 * 5); ("beta", 3)].
